@@ -96,7 +96,7 @@ func init() {
 			"callback call, leave the loop on the first nil error, and return the induction variable and the last error; PT2 every path from one callback call to the next crosses a wait on the delay parameter. " +
 			"Decides call counts and ordering, not the After/Before thresholds or wall-clock delays.",
 		Assumptions: []string{"go/ssa faithful to the source", "time.After/time.Sleep contracts", "cache.Set/Get behave as C08 states"},
-		NotDecided:  []string{"the exact thresholds of After/Before (arithmetic on the caller-owned counter across calls)", "lifetime of the 'func' cache entry (C08)", "wall-clock delays"},
+		NotDecided:  []string{"the exact thresholds of After/Before beyond their side (arithmetic on the caller-owned counter across calls)", "lifetime of the 'func' cache entry (C08)", "wall-clock delays"},
 		Run:         runC18,
 	})
 }
@@ -286,6 +286,71 @@ func runC18(p *core.Program, r *core.Report) {
 			want := "compared before the decrement"
 			if name == "gogu.Before" {
 				want = "compared after the decrement"
+			}
+			// which side of the threshold: Before runs the callback only while the
+			// decremented counter is known to be >= 0 (never for n <= 0, never again once
+			// the count is used up); After only when the counter is known to be <= 0
+			{
+				const none = int64(1) << 40
+				lb, ub := -none, none
+				for _, g := range path.Guards(fn, c.Block()) {
+					cd, ok := path.CondOf(g.If)
+					if !ok {
+						continue
+					}
+					truth := g.Idx == 0
+					if cd.Neg {
+						truth = !truth
+					}
+					rel := normCmp(cd.Op, truth)
+					var k int64
+					if kk, isC := path.IntConst(cd.Y); isC && isLoadOf(cal, cd.X) {
+						k = kk
+					} else if kk, isC := path.IntConst(cd.X); isC && isLoadOf(cal, cd.Y) {
+						k = kk
+						rel = flipRel(rel)
+					} else {
+						continue
+					}
+					switch rel {
+					case ">":
+						if k+1 > lb {
+							lb = k + 1
+						}
+					case ">=":
+						if k > lb {
+							lb = k
+						}
+					case "<":
+						if k-1 < ub {
+							ub = k - 1
+						}
+					case "<=":
+						if k < ub {
+							ub = k
+						}
+					case "==":
+						if k > lb {
+							lb = k
+						}
+						if k < ub {
+							ub = k
+						}
+					}
+				}
+				okSide := false
+				side := ""
+				if name == "gogu.Before" {
+					okSide = lb >= 0
+					side = "the callback can run although the decremented counter is not known to be >= 0: Before(n <= 0) must never run it, and it must not run again once the n calls are used up"
+				} else {
+					okSide = ub <= 0
+					side = "the callback can run although the counter is not known to be <= 0: After must suppress it for the first n calls"
+				}
+				r.Obligation("PT3", okSide, map[string]any{"rule": "PT3", "function": name, "what": "callback on the right side of the threshold", "at": p.InstrPos(c), "ok": okSide})
+				if !okSide {
+					r.Violation(core.Diag{Rule: "PT3", Func: name, Object: "threshold side", Pos: p.InstrPos(c), Reason: side})
+				}
 			}
 			okG := guarded && order == want
 			r.Obligation("PT3", okG, map[string]any{"rule": "PT3", "function": name, "what": "callback guarded by counter comparison", "at": p.InstrPos(c), "order": order, "ok": okG})
@@ -580,6 +645,9 @@ func runC18(p *core.Program, r *core.Report) {
 	// deadline; that entry must stay - 'expired' has to mean the same thing for the
 	// lookup and for the background cleanup (OD1 of the cache, shared with C08/C17)
 	expiryAgreement(p, r, p.FuncsInFiles("cache/cache.go"))
+	// ... and Set (whose error Before and Once ignore) must store whenever the lookup
+	// of the key finds no live entry, in particular over an expired, unswept one
+	cacheSetRule(p, r)
 	r.Floor("PT1", 5)
 	r.Floor("PT4", 2)
 }
